@@ -139,6 +139,100 @@ theorem style_noninterference (ops : List StyleOp) (h : Heap) (q : Nat) (hq : q 
     (hops : ∀ op ∈ ops, ∀ i v, op ≠ .custom q i v) : (runOps tableStyles h ops)[q]? = h[q]? :=
   style_noninterference_of_copies tableStyles factories_copy ops h q hq hops
 
+/-! ## the hypotheses are decided / observed on every real case
+
+`style_noninterference` is about "the border style at reference `q`" of a heap of border objects.
+Two facts connect it with the real objects and used to be taken for granted by the correspondence
+(which addressed the j-th created style as heap object `3 + j`): every factory copies
+(`factories_copy`, proved from the regenerated table) and therefore every created style owns a
+FRESH object.  `refsOf` computes the references in the model; the harness computes them on the real
+objects by identity and compares (entry `c17.styles_wf`). -/
+
+/-- a copying factory returns a fresh reference: the new style's border is a new heap object -/
+theorem makeStyle_fresh (spec : String × Nat × Bool × List (Nat × String)) (hc : spec.2.2.1 = true)
+    (h : Heap) : (makeStyle spec h).1 = h.length ∧ (makeStyle spec h).2.length = h.length + 1 := by
+  unfold makeStyle
+  simp only [hc, if_true]
+  split <;> simp [foldSet_length]
+
+/-- what the deciders of the model mean -/
+theorem styles_wf_decides (specs : List (String × Nat × Bool × List (Nat × String))) (q : Nat)
+    (ops : List StyleOp) :
+    (copiesB specs = true ↔ ∀ s ∈ specs, s.2.2.1 = true) ∧
+    (untouchedB q ops = true ↔ ∀ op ∈ ops, ∀ i v, op ≠ .custom q i v) := by
+  constructor
+  · simp [copiesB]
+  · simp only [untouchedB, List.all_eq_true]
+    constructor
+    · intro h op hop i v he
+      have := h op hop
+      rw [he] at this
+      simp at this
+    · intro h op hop
+      cases op with
+      | make k => rfl
+      | custom r i v =>
+        simp only [bne_iff_ne, ne_eq]
+        intro hr
+        exact h _ hop i v (by rw [hr])
+
+/-- **Every created style owns an object of its own**: when all factories copy, the references of
+the styles a history creates are `|heap|, |heap| + 1, …` - pairwise distinct, distinct from the
+cached instances and from every object that existed before. -/
+theorem refs_fresh (specs : List (String × Nat × Bool × List (Nat × String)))
+    (hc : copiesB specs = true) (ops : List StyleOp) :
+    ∀ h : Heap, refsOf specs h ops = List.range' h.length (makesOf specs ops) := by
+  have hc' := (styles_wf_decides specs 0 []).1.mp hc
+  induction ops with
+  | nil => intro h; simp [refsOf, makesOf]
+  | cons op rest ih =>
+    intro h
+    cases op with
+    | make k =>
+      cases hk : specs[k]? with
+      | none =>
+        have hlen : ¬ k < specs.length := by
+          intro hlt; rw [List.getElem?_eq_getElem hlt] at hk; cases hk
+        have := ih h
+        simp only [makesOf] at this ⊢
+        simp [refsOf, hlen, this]
+      | some sp =>
+        have hlen : k < specs.length := by
+          apply Classical.byContradiction
+          intro hn
+          rw [List.getElem?_eq_none (by omega)] at hk; cases hk
+        obtain ⟨h1, h2⟩ := makeStyle_fresh sp (hc' sp (List.mem_of_getElem? hk)) h
+        have := ih (makeStyle sp h).2
+        rw [h2] at this
+        simp only [makesOf] at this ⊢
+        simp only [refsOf, hk, List.filter_cons, hlen, decide_true, if_true, List.length_cons,
+          List.range'_succ, h1, this]
+    | custom r i v =>
+      have := ih (heapSet h r i v)
+      simp only [makesOf] at this ⊢
+      simp [refsOf, this, heapSet_length]
+
+/-- ... for the code as it is: the j-th style created from the initial heap owns object `3 + j` -/
+theorem refs_fresh_source (ops : List StyleOp) :
+    refsOf tableStyles initialHeap ops = List.range' 3 (makesOf tableStyles ops) :=
+  refs_fresh tableStyles (by decide) ops initialHeap
+
+/-- `style_noninterference` with its side condition decided -/
+theorem style_noninterference_dec (ops : List StyleOp) (h : Heap) (q : Nat) (hq : q < h.length)
+    (hops : untouchedB q ops = true) : (runOps tableStyles h ops)[q]? = h[q]? :=
+  style_noninterference ops h q hq ((styles_wf_decides tableStyles q ops).2.mp hops)
+
+/-- the form the correspondence checks: whatever was created and customised before (`ops1`), any
+further history (`ops2`) that does not customise the style at `q` leaves its border as it was. -/
+theorem style_noninterference_after (ops1 ops2 : List StyleOp) (q : Nat)
+    (hq : q < (runOps tableStyles initialHeap ops1).length) (hops : untouchedB q ops2 = true) :
+    (runOps tableStyles initialHeap (ops1 ++ ops2))[q]? = (runOps tableStyles initialHeap ops1)[q]? := by
+  have : runOps tableStyles initialHeap (ops1 ++ ops2) =
+      runOps tableStyles (runOps tableStyles initialHeap ops1) ops2 := by
+    simp [runOps, List.foldl_append]
+  rw [this]
+  exact style_noninterference_dec ops2 _ q hq hops
+
 /-- D20 (repaired by "fix: table styles shared and mutated cached border styles"), kept as a proved
 counterexample: with factories that alias the cached instance, creating `compact()` changes the
 border style of a `borderless()` style created before. -/
@@ -152,5 +246,38 @@ theorem d20_aliasing_interferes :
 example : (runOps tableStyles initialHeap [.make 0, .make 1, .custom 4 1 "x"])[3]?
     = (runOps tableStyles initialHeap [.make 0])[3]? := by decide
 example : helpCreate (some true) false = some true := by decide
+
+/-! ### every theorem with hypotheses, applied to concrete instances (all hypotheses discharged) -/
+
+/-- `borderless()`, then `compact()` and a customisation of the SECOND style: the first one (object 3)
+keeps its border -/
+example : (runOps tableStyles (runOps tableStyles initialHeap [.make 0]) [.make 1, .custom 4 1 "x"])[3]?
+    = (runOps tableStyles initialHeap [.make 0])[3]? :=
+  style_noninterference_dec _ _ 3 (by decide) (by decide)
+example := style_noninterference_after [.make 0] [.make 1, .custom 4 1 "x"] 3 (by decide) (by decide)
+example := style_noninterference [.make 1, .custom 4 1 "x"] (runOps tableStyles initialHeap [.make 0]) 3
+  (by decide) ((styles_wf_decides tableStyles 3 _).2.mp (by decide))
+example := style_noninterference_of_copies tableStyles factories_copy [.make 1] initialHeap 0 (by decide)
+  ((styles_wf_decides tableStyles 0 _).2.mp (by decide))
+example := makeStyle_other ("compact", 0, true, [(1, ""), (4, " "), (10, "")]) rfl initialHeap 0 (by decide)
+example := makeStyle_fresh ("compact", 0, true, [(1, ""), (4, " "), (10, "")]) rfl initialHeap
+example : refsOf tableStyles initialHeap [.make 0, .custom 3 1 "*", .make 3, .make 7, .make 1] = [3, 4, 5] := by
+  decide
+/-- the deciders are not constantly true: an aliasing table, a history that customises `q` -/
+example : copiesB (tableStyles.map fun s => (s.1, s.2.1, false, s.2.2.2)) = false ∧
+    untouchedB 3 [.make 1, .custom 3 1 "x"] = false ∧
+    refsOf (tableStyles.map fun s => (s.1, s.2.1, false, s.2.2.2)) initialHeap [.make 0, .make 1] = [0, 0] := by
+  decide
+
+/-- `history_independent` on a concrete application: the outcome of a line DOES read the leniency
+setting, `help` lines reach the help resolver (succeeding or failing) - every run still observes
+what a fresh application observes -/
+example :
+    let helpTarget : Nat → Option (List Str × Bool) := fun l =>
+      if l = 1 then some ([['p']], true) else if l = 2 then some ([['p']], false) else none
+    let outcome : Nat → (List Str → Option Bool) → Nat × Option Bool := fun l len => (l, len [['p']])
+    runHistory helpTarget outcome [([['p']], some false)] [0, 1, 0, 2, 0] =
+      [(0, some false), (1, some false), (0, some false), (2, some false), (0, some false)] := by
+  decide
 
 end Clikit.Props.C17
